@@ -14,6 +14,9 @@ fn set(v: &Value) -> BTreeSet<u32> {
 
 pub fn replay_line(st: &mut Stats, prop: &str, line: &Value) {
     st.cases += 1;
+    if !arr(&line["cmp"]["changed_terms"]).is_empty() || !arr(&line["cmp"]["gene"]["changed"]).is_empty() || !arr(&line["cmp"]["added_terms"]).is_empty() {
+        st.nontrivial += 1;
+    }
     st.evaluations += 1;
     let (Ok(l), Ok(r)) = (from_bytes(&bytes_of(&line["lbytes"])), from_bytes(&bytes_of(&line["rbytes"]))) else {
         st.violations.push(Violation { property: prop.to_string(), what: "cannot load ontologies for compare".into(), replay: json!({"cmd": "replay-compare", "property": prop, "line": line, "diffs": []}) });
@@ -101,6 +104,42 @@ pub fn replay_line(st: &mut Stats, prop: &str, line: &Value) {
         Ok(x) => d.extend(x),
         Err(p) => d.push(format!("compare panicked: {p}")),
     }
+    // laws: an ontology compared with itself or with its binary round trip reports nothing; swapping the sides swaps added and removed
+    let laws = catch(|| {
+        let mut d: Vec<String> = vec![];
+        let empty = |c: &hpo::comparison::Comparison| -> bool {
+            c.added_hpo_terms().is_empty() && c.removed_hpo_terms().is_empty() && c.changed_hpo_terms().is_empty()
+                && c.added_genes().is_empty() && c.removed_genes().is_empty() && c.changed_genes().is_empty()
+                && c.added_omim_diseases().is_empty() && c.removed_omim_diseases().is_empty() && c.changed_omim_diseases().is_empty()
+                && c.added_orpha_diseases().is_empty() && c.removed_orpha_diseases().is_empty() && c.changed_orpha_diseases().is_empty()
+        };
+        if !empty(&l.compare(&l)) {
+            d.push("comparing an ontology with itself reports differences".to_string());
+        }
+        if let Ok(l2) = from_bytes(&l.as_bytes()) {
+            if !empty(&l.compare(&l2)) || !empty(&l2.compare(&l)) {
+                d.push("comparing an ontology with its binary round trip reports differences".to_string());
+            }
+        }
+        let (c1, c2) = (l.compare(&r), r.compare(&l));
+        let t = |v: Vec<hpo::HpoTerm>| -> BTreeSet<u32> { v.iter().map(|x| x.id().as_u32()).collect() };
+        if t(c1.added_hpo_terms()) != t(c2.removed_hpo_terms()) || t(c1.removed_hpo_terms()) != t(c2.added_hpo_terms()) {
+            d.push("swapping the arguments does not swap added and removed terms".to_string());
+        }
+        let g = |v: Vec<&hpo::annotations::Gene>| -> BTreeSet<u32> { v.iter().map(|x| x.id().as_u32()).collect() };
+        if g(c1.added_genes()) != g(c2.removed_genes()) || g(c1.removed_genes()) != g(c2.added_genes()) {
+            d.push("swapping the arguments does not swap added and removed genes".to_string());
+        }
+        if c1.changed_hpo_terms().len() != c2.changed_hpo_terms().len() || c1.changed_genes().len() != c2.changed_genes().len()
+            || c1.changed_omim_diseases().len() != c2.changed_omim_diseases().len() || c1.changed_orpha_diseases().len() != c2.changed_orpha_diseases().len() {
+            d.push("swapping the arguments changes the number of changed entries".to_string());
+        }
+        d
+    });
+    match laws {
+        Ok(x) => d.extend(x),
+        Err(p) => d.push(format!("compare (laws) panicked: {p}")),
+    }
     if !d.is_empty() && st.violations.len() < 4 {
         d.truncate(8);
         let mut l2 = line.clone();
@@ -120,6 +159,12 @@ pub fn run(args: &Args) {
     }
     let prop = args.get("prop").unwrap_or("EXTRA").to_string();
     let mut st = Stats::default();
+    if let Some(l) = lines.first() {
+        let mut x = l.clone();
+        x["lbytes"] = json!(arr(&l["lbytes"]).len());
+        x["rbytes"] = json!(arr(&l["rbytes"]).len());
+        st.samples.push(x);
+    }
     for l in &lines {
         guard_case(&mut st, &prop, "replay-compare", l, |st| replay_line(st, &prop, l));
     }
